@@ -18,6 +18,8 @@ import z3
 
 F0 = Fraction(0)
 F1 = Fraction(1)
+FACT = {}     # factored forms of z3 terms, see _fact()
+_VARS = {}
 
 
 class SymbolicConcretization(TypeError):
@@ -53,6 +55,7 @@ class Engine:
         self.fork_log = []
         self.active = False
         self.exp_underflow = False
+        FACT.clear()
 
     def fresh(self, name="v"):
         return z3.Real("%s!%d" % (name, next(self.nfresh)))
@@ -143,40 +146,103 @@ def z(a):
     return RV(a) if isinstance(a, Fraction) else a
 
 
-def c_add(a, b):
+# Factored form.  Every symbolic component term t may carry a factorisation
+#   t == coeff * prod(var_i ** pow_i) * core
+# (FACT[id(t)] = (t, coeff, vars, core); core None means 1).  Scalar factors such as
+# dt, 2*pi/(N*dt), unit conversion constants then cancel *syntactically*
+# (m*A + m*B -> m*(A+B), (m1*A)*(m2*B) -> (m1*m2)*(A*B), (m*A)/m2 -> (m/m2)*A),
+# which keeps the queries handed to the solver free of rational-function noise.
+# A cancellation var/var -> 1 is justified by the recorded obligation `den != 0`.
+def _fact(t):
+    """(coeff, vars(tuple of (name,pow)), core or None) of a z3 term"""
+    ent = FACT.get(t.get_id())
+    if ent is not None and ent[0].eq(t):
+        return ent[1], ent[2], ent[3]
+    if z3.is_const(t) and t.decl().kind() == z3.Z3_OP_UNINTERPRETED:
+        nm = t.decl().name()
+        _VARS[nm] = t
+        return F1, ((nm, 1),), None
+    return F1, (), t
+
+
+def _vmul(v1, v2, sign=1):
+    d = dict(v1)
+    for n, p in v2:
+        d[n] = d.get(n, 0) + sign * p
+    return tuple(sorted((n, p) for n, p in d.items() if p != 0))
+
+
+def _build(coeff, vars_, core):
+    """canonical z3 term (or Fraction) for coeff*vars*core, registered in FACT"""
+    if coeff == 0:
+        return F0
+    num = None
+    den = None
+    for n, p in vars_:
+        v = _VARS[n]
+        for _ in range(abs(p)):
+            if p > 0:
+                num = v if num is None else num * v
+            else:
+                den = v if den is None else den * v
+    t = core
+    if num is not None:
+        t = num if t is None else num * t
+    if t is None:
+        if den is None:
+            return coeff
+        t = RV(coeff) / den
+        FACT[t.get_id()] = (t, coeff, vars_, None)
+        return t
+    if den is not None:
+        t = t / den
+    if coeff != 1:
+        t = (-t) if coeff == -1 else RV(coeff) * t
+    if vars_ or coeff != 1:
+        FACT[t.get_id()] = (t, coeff, vars_, core)
+    return t
+
+
+def c_add(a, b, sign=1):
     ca, cb = isinstance(a, Fraction), isinstance(b, Fraction)
     if ca and cb:
-        return a + b
-    if ca:
-        if a == 0:
-            return b
-        return RV(a) + b
-    if cb:
-        if b == 0:
-            return a
-        return a + RV(b)
-    return a + b
+        return a + sign * b
+    if ca and a == 0:
+        return b if sign == 1 else c_neg(b)
+    if cb and b == 0:
+        return a
+    if ca or cb:
+        za, zb = z(a), z(b)
+        return za + zb if sign == 1 else za - zb
+    if a.eq(b):
+        return c_mul(Fraction(2), a) if sign == 1 else F0
+    ka, va, ra = _fact(a)
+    kb, vb, rb = _fact(b)
+    if va == vb and va:
+        # common monomial factor: m*(ka*ra + kb*rb)
+        kb = sign * kb
+        if ra is None and rb is None:
+            return _build(ka + kb, va, None)
+        ta = RV(ka) if ra is None else (ra if ka == 1 else (-ra if ka == -1 else RV(ka) * ra))
+        tb = RV(abs(kb)) if rb is None else (rb if abs(kb) == 1 else RV(abs(kb)) * rb)
+        if ra is not None and rb is not None and ra.eq(rb):
+            return _build(ka + kb, va, ra)
+        core = ta + tb if kb > 0 else ta - tb
+        return _build(F1, va, core)
+    return a + b if sign == 1 else a - b
 
 
 def c_neg(a):
     if isinstance(a, Fraction):
         return -a
+    k, v, r = _fact(a)
+    if v or k != 1:
+        return _build(-k, v, r)
     return -a
 
 
 def c_sub(a, b):
-    ca, cb = isinstance(a, Fraction), isinstance(b, Fraction)
-    if ca and cb:
-        return a - b
-    if cb:
-        if b == 0:
-            return a
-        return a - RV(b)
-    if ca:
-        if a == 0:
-            return -b
-        return RV(a) - b
-    return a - b
+    return c_add(a, b, -1)
 
 
 def c_mul(a, b):
@@ -184,37 +250,45 @@ def c_mul(a, b):
     if ca and cb:
         return a * b
     if ca:
-        if a == 0:
-            return F0
-        if a == 1:
-            return b
-        if a == -1:
-            return -b
-        return RV(a) * b
+        a, b, ca, cb = b, a, cb, ca
     if cb:
         if b == 0:
             return F0
         if b == 1:
             return a
-        if b == -1:
-            return -a
-        return a * RV(b)
-    return a * b
+        k, v, r = _fact(a)
+        return _build(k * b, v, r)
+    ka, va, ra = _fact(a)
+    kb, vb, rb = _fact(b)
+    if ra is None:
+        core = rb
+    elif rb is None:
+        core = ra
+    else:
+        core = ra * rb
+    return _build(ka * kb, _vmul(va, vb), core)
 
 
 def c_div(a, b):
-    ca, cb = isinstance(a, Fraction), isinstance(b, Fraction)
+    cb = isinstance(b, Fraction)
     if cb:
         if b == 0:
             raise ZeroDivisionError("symnum: division by literal zero")
         return c_mul(a, 1 / b)
     # symbolic denominator: side obligation b != 0
     ENGINE.oblige("div", b != 0, "denominator != 0")
-    if ca:
+    if isinstance(a, Fraction):
         if a == 0:
             return F0
-        return RV(a) / b
-    return a / b
+        ka, va, ra = a, (), None
+    else:
+        ka, va, ra = _fact(a)
+    kb, vb, rb = _fact(b)
+    if rb is None:
+        return _build(ka / kb, _vmul(va, vb, -1), ra)
+    # non-monomial denominator: keep numerator's factor outside
+    num = RV(F1) if ra is None else ra
+    return _build(ka / kb, _vmul(va, vb, -1), num / rb)
 
 
 # --------------------------------------------------------------------------
@@ -293,7 +367,6 @@ def lift(x):
 class Sym:
     """complex symbolic number"""
     __slots__ = ("re", "im")
-    __array_priority__ = 100.0
 
     def __init__(self, re, im=F0):
         self.re = re
@@ -821,3 +894,43 @@ def has_sym(x):
     if isinstance(x, (list, tuple)):
         return any(has_sym(y) for y in x)
     return False
+
+
+# --------------------------------------------------------------------------
+# numeric evaluation of symbolic terms under an assignment (for guessing grid
+# indices and for validating the encoding against the real code)
+# --------------------------------------------------------------------------
+def evalf(x, env=None, default=1.0):
+    """float/complex value of Sym `x` with variables replaced by env[name] (floats);
+    variables not in env get `default`"""
+    x = lift(x)
+    env = env or {}
+
+    def ev(c):
+        if isinstance(c, Fraction):
+            return float(c)
+        syms = {}
+        stack = [c]
+        seen = set()
+        while stack:
+            e = stack.pop()
+            if e.get_id() in seen:
+                continue
+            seen.add(e.get_id())
+            if z3.is_const(e) and e.decl().kind() == z3.Z3_OP_UNINTERPRETED:
+                syms[e.decl().name()] = e
+            else:
+                stack.extend(e.children())
+        subs = []
+        for n, e in syms.items():
+            v = env.get(n, default)
+            subs.append((e, RV(Fraction(v).limit_denominator(10 ** 12))))
+        r = z3.simplify(z3.substitute(c, *subs)) if subs else z3.simplify(c)
+        if z3.is_rational_value(r):
+            return r.numerator_as_long() / r.denominator_as_long()
+        if z3.is_algebraic_value(r):
+            a = r.approx(20)
+            return a.numerator_as_long() / a.denominator_as_long()
+        raise SymbolicConcretization("evalf: cannot evaluate %s" % (str(r)[:80],))
+    re, im = ev(x.re), ev(x.im)
+    return complex(re, im) if im != 0 else re
